@@ -214,6 +214,11 @@ def h_diff(
         oq = out.get("Q", 0)
         if oq != dq and oq != -dq:
             return False
+        # a charge carried by one side only keeps its sign (this is the charge the completion must bring: the rule
+        # solver subtracts rule charges from it); only when both sides are charged is the magnitude reported
+        if ("Q" in r) != ("Q" in p):
+            if oq != (r["Q"] if "Q" in r else p["Q"]):
+                return False
     return len(out) == n
 
 
